@@ -316,3 +316,161 @@ def expr_key(e: ast.AST, folder=None) -> str:
         return f"{type(e.op).__name__}({expr_key(e.operand, folder)})"
     from sa.load import norm as _norm
     return _norm(e)
+
+
+def exact_separator_discipline(rep, rule: str, mod, scope=None, skip=()):
+    """Line and token framing of a byte format is by ONE named separator.  `bytes.splitlines()` also breaks at CR, VT, FF, FS,
+    GS, RS, NEL... and drops a trailing empty line; an argument-less `split()` / `strip()`-and-split breaks at every ASCII
+    whitespace byte.  Reports each such call in the module (or in the functions named by `scope`); `skip` names functions whose
+    business is text content, not the format.  The detector is self-checked on every run."""
+    probe = ast.parse("def f(x):\n    a = x.splitlines()\n    b = x.split()\n    c = x.split(b'\\n')\n")
+    def hits(tree):
+        return [c for c in ast.walk(tree) if isinstance(c, ast.Call) and isinstance(c.func, ast.Attribute) and
+                ((c.func.attr == "splitlines") or (c.func.attr in ("split", "rsplit") and not c.args and not c.keywords))]
+    if len(hits(probe)) != 2:
+        from sa.load import AnalysisError
+        raise AnalysisError(f"{rule}: separator-discipline detector self-check failed")
+    from sa.load import norm as _norm
+    found = []
+    for c in hits(mod.tree):
+        f = mod.enclosing_func(c)
+        q = f.qual if f else "<module>"
+        if any(q == s_ or q.startswith(s_ + ".") for s_ in skip):
+            continue
+        if scope is not None and not any(q == s_ or q.startswith(s_ + ".") for s_ in scope):
+            continue
+        found.append((q, c))
+    rep.ob(rule, mod.rel, found[0][0] if found else "<module>", "framing uses one named separator: no splitlines(), no argument-less split()", not found,
+           (f"`{_norm(found[0][1], 60)}` also splits at bytes the writer never uses as a separator (CR, VT, FF, ... / every whitespace byte) and "
+            f"splitlines() drops a trailing empty line: data containing such a byte is framed differently on read and on write") if found else "",
+           found[0][1].lineno if found else 0)
+    return found
+
+
+def wrapper_exc_behaviour(prog: Program) -> dict[str, dict]:
+    """For every closing wrapper class (closing_wrappers): does `close()` close the wrapped object also on an EXCEPTIONAL path
+    (inside a finally / handler), and does `__exit__` close it whatever the exception state?  For a wrapped lock file closing
+    means committing, so either makes a failed write replace the protected file."""
+    from .flow import reach
+    from .cfg import EXC_LABELS as _EXC
+    out = {}
+    for cname, idx in closing_wrappers(prog).items():
+        cls = prog.classes[cname][0]
+        m = cls.module
+        init = m.funcs.get(f"{cname}.__init__")
+        ps = [a.arg for a in init.node.args.args][1:]
+        attr = None
+        for s in init.node.body:
+            if isinstance(s, (ast.Assign, ast.AnnAssign)):
+                tgt = s.targets[0] if isinstance(s, ast.Assign) else s.target
+                if isinstance(tgt, ast.Attribute) and isinstance(s.value, ast.Name) and s.value.id in ps and ps.index(s.value.id) == idx:
+                    attr = tgt.attr
+        res = {"close_on_exc": False, "exit_closes_on_exc": False, "attr": attr}
+        close = m.funcs.get(f"{cname}.close")
+        if close is not None and attr:
+            g = CFG(close.node)
+            closers = {i for i, n in g.nodes.items() if n.kind == "stmt" for c in ast.walk(n.ast) if isinstance(c, ast.Call) and isinstance(c.func, ast.Attribute)
+                       and c.func.attr == "close" and dotted(c.func.value) == f"self.{attr}"}
+            exc_succ = [b for i in g.nodes for b, l in g.succ[i] if l in _EXC and i not in closers]
+            r = reach(g, exc_succ, include_srcs=True) if exc_succ else set()
+            res["close_on_exc"] = bool(closers & r)
+        ex = m.funcs.get(f"{cname}.__exit__")
+        if ex is not None and attr:
+            calls = [c for c in ast.walk(ex.node) if isinstance(c, ast.Call) and isinstance(c.func, ast.Attribute) and c.func.attr == "close"
+                     and dotted(c.func.value) in (f"self.{attr}", "self")]
+            tests_exc = any(isinstance(t, ast.If) for t in ast.walk(ex.node))
+            res["exit_closes_on_exc"] = bool(calls) and not tests_exc
+        out[cname] = res
+    return out
+
+
+# ---------------------------------------------------------------- chunk-boundary insensitivity
+BOUNDARY_SENSITIVE = {"splitlines", "split", "rsplit", "partition", "rpartition", "find", "rfind", "index", "rindex", "startswith",
+                      "endswith", "strip", "lstrip", "rstrip", "decode", "count", "replace"}
+CHUNK_SOURCES = ("chunked", "_chunked_text", "as_raw_chunks", "as_legacy_object_chunks")
+
+
+def chunk_loops(mod):
+    """(function, for-loop, loop variable) for every loop that walks an object's chunk list: `for c in x.chunked`,
+    `for c in x.as_raw_chunks()`, or over a local name assigned from one of those."""
+    out = []
+    for q, f in mod.funcs.items():
+        if "#" in q:
+            continue
+        chunkvars = set()
+        for s_ in ast.walk(f.node):
+            if isinstance(s_, ast.Assign) and len(s_.targets) == 1 and isinstance(s_.targets[0], ast.Name):
+                v = s_.value.func if isinstance(s_.value, ast.Call) else s_.value
+                if isinstance(v, ast.Attribute) and v.attr in CHUNK_SOURCES:
+                    chunkvars.add(s_.targets[0].id)
+        for l in ast.walk(f.node):
+            if not isinstance(l, ast.For) or not isinstance(l.target, ast.Name) or mod.enclosing_func(l) is not f:
+                continue
+            it = l.iter.func if isinstance(l.iter, ast.Call) else l.iter
+            if (isinstance(it, ast.Attribute) and it.attr in CHUNK_SOURCES) or (isinstance(l.iter, ast.Name) and l.iter.id in chunkvars):
+                out.append((f, l, l.target.id))
+    return out
+
+
+def chunk_boundary_rule(rep, rule: str, mod, floor: int = 1):
+    """The content of an object is the CONCATENATION of its chunks; where the boundaries fall is an accident of how it was
+    produced (one chunk per delta command in the Python apply_delta, a single chunk in the Rust one).  A loop over the
+    chunk list may therefore only do things that commute with concatenation (hash update, write, len, append/join); a
+    per-chunk line split, search, prefix test, strip or decode gives an answer that depends on the chunking."""
+    from sa.load import AnalysisError, norm
+    probe = ast.parse("def f(o):\n    for c in o.chunked:\n        yield c.splitlines(True)\n")
+
+    def sensitive(loop, var):
+        return [c for c in ast.walk(loop) if isinstance(c, ast.Call) and isinstance(c.func, ast.Attribute) and c.func.attr in BOUNDARY_SENSITIVE
+                and isinstance(c.func.value, ast.Name) and c.func.value.id == var]
+    if len(sensitive(probe.body[0].body[0], "c")) != 1:
+        raise AnalysisError(f"{rule}: detector self-check failed")
+    loops = chunk_loops(mod)
+    for f, l, var in loops:
+        bad = sensitive(l, var)
+        rep.ob(rule, mod.rel, f.qual, f"`for {var} in {norm(l.iter, 40)}`: only operations that commute with concatenation are applied per chunk", not bad,
+               (f"`{norm(bad[0], 50)}` is evaluated per chunk: its result depends on where the chunk boundaries fall (a chunk may end in a newline, in the CR of "
+                f"a CRLF, or inside a multi-byte character), and the Python and Rust apply_delta chunk the same content differently") if bad else "",
+               (bad[0] if bad else l).lineno)
+    if len(loops) < floor:
+        raise AnalysisError(f"{rule}: expected >= {floor} loops over object chunk lists in {mod.rel}, found {len(loops)}")
+    return len(loops)
+
+
+# ---------------------------------------------------------------- scenario-restricted paths (three-valued tests)
+def scenario_edge_filter(g, rd, atoms):
+    """edge_ok for flow.reach/must_pass that keeps only the paths consistent with a SCENARIO.  `atoms(expr) -> True/False/None`
+    gives the truth of the atomic tests the scenario fixes (None = not fixed).  Tests are evaluated three-valued through
+    not/and/or/bool() and through names with a single reaching definition; an edge is cut only when its test is decided."""
+    def ev(e, at, depth=0):
+        v = atoms(e)
+        if v is not None:
+            return v
+        if isinstance(e, ast.UnaryOp) and isinstance(e.op, ast.Not):
+            x = ev(e.operand, at, depth)
+            return None if x is None else (not x)
+        if isinstance(e, ast.BoolOp):
+            vals = [ev(x, at, depth) for x in e.values]
+            if isinstance(e.op, ast.And):
+                return False if any(x is False for x in vals) else (True if all(x is True for x in vals) else None)
+            return True if any(x is True for x in vals) else (False if all(x is False for x in vals) else None)
+        if isinstance(e, ast.Call) and isinstance(e.func, ast.Name) and e.func.id == "bool" and len(e.args) == 1:
+            return ev(e.args[0], at, depth)
+        if isinstance(e, ast.Name) and depth < 3:
+            defs = rd[at].get(e.id, ())
+            if len(defs) == 1:
+                d = next(iter(defs))
+                a = g.nodes[d].ast
+                if isinstance(a, (ast.Assign, ast.AnnAssign)) and a.value is not None:
+                    return ev(a.value, d, depth + 1)
+        return None
+    decided = {}
+    for i, n in g.nodes.items():
+        if n.kind == "test":
+            v = ev(n.ast, i)
+            if v is not None:
+                decided[i] = "true" if v else "false"
+
+    def edge_ok(a, b, l):
+        return not (a in decided and l in ("true", "false") and l != decided[a])
+    return edge_ok, decided
